@@ -31,6 +31,8 @@ type rpf struct {
 	env      map[types.Object]*Val
 	callHook func(r *rpf, call *ast.CallExpr, callee types.Object) (*Val, bool)
 	selHook  func(r *rpf, sel *ast.SelectorExpr) (*Val, bool)
+	idxHook  func(r *rpf, ix *ast.IndexExpr) (*Val, bool)
+	stHook   func(r *rpf, lhs ast.Expr, v *Val) bool // store through an index/selector expression, recorded as an effect
 	steps    int
 }
 
@@ -47,6 +49,8 @@ func (c *Ctx) rpfCall(fd *ast.FuncDecl, p *packages.Package, args []*Val, hooks 
 	if hooks != nil {
 		r.callHook = hooks.callHook
 		r.selHook = hooks.selHook
+		r.idxHook = hooks.idxHook
+		r.stHook = hooks.stHook
 	}
 	defer func() {
 		if x := recover(); x != nil {
@@ -108,6 +112,8 @@ func (c *Ctx) rpfExpr(p *packages.Package, e ast.Expr, env map[types.Object]*Val
 	if hooks != nil {
 		r.callHook = hooks.callHook
 		r.selHook = hooks.selHook
+		r.idxHook = hooks.idxHook
+		r.stHook = hooks.stHook
 	}
 	defer func() {
 		if x := recover(); x != nil {
@@ -377,6 +383,9 @@ func assignOp(t token.Token) token.Token {
 
 func (r *rpf) assign(l ast.Expr, v *Val, define bool) {
 	id, ok := l.(*ast.Ident)
+	if !ok && r.stHook != nil && r.stHook(r, l, v) {
+		return
+	}
 	if !ok {
 		rpfFail("%s: assignment to non-variable", r.c.pos(l.Pos()))
 	}
@@ -485,6 +494,11 @@ func (r *rpf) expr(e ast.Expr) *Val {
 		}
 		rpfFail("%s: selector outside the pure fragment", r.c.pos(x.Pos()))
 	case *ast.IndexExpr:
+		if r.idxHook != nil {
+			if v, ok := r.idxHook(r, x); ok {
+				return v
+			}
+		}
 		base := r.expr(x.X)
 		idx := r.expr(x.Index)
 		if base.K == VStr && idx.K == VInt {
@@ -594,6 +608,11 @@ func (r *rpf) expr(e ast.Expr) *Val {
 			rpfFail("%s: conversion outside the pure fragment", r.c.pos(x.Pos()))
 		}
 		callee := typeutil.Callee(info, x)
+		if r.callHook != nil {
+			if v, ok := r.callHook(r, x, callee); ok {
+				return v
+			}
+		}
 		if b, ok := callee.(*types.Builtin); ok && b.Name() == "len" && len(x.Args) == 1 {
 			v := r.expr(x.Args[0])
 			if v.K == VList {
@@ -601,11 +620,6 @@ func (r *rpf) expr(e ast.Expr) *Val {
 			}
 			if v.K == VStr {
 				return vint(int64(len(v.S)))
-			}
-		}
-		if r.callHook != nil {
-			if v, ok := r.callHook(r, x, callee); ok {
-				return v
 			}
 		}
 		// trivial field getters on literal struct values
@@ -691,6 +705,36 @@ func (r *rpf) binop(op token.Token, a, b *Val, t types.Type, pos token.Pos) *Val
 		case token.ADD:
 			return vstr(a.S + b.S)
 		}
+	}
+	if (a.K == VFloat || b.K == VFloat) && (a.K == VFloat || a.K == VInt) && (b.K == VFloat || b.K == VInt) {
+		fa, fb := a.F, b.F
+		if a.K == VInt {
+			fa = float64(a.I)
+		}
+		if b.K == VInt {
+			fb = float64(b.I)
+		}
+		switch op {
+		case token.ADD:
+			return &Val{K: VFloat, F: fa + fb}
+		case token.SUB:
+			return &Val{K: VFloat, F: fa - fb}
+		case token.MUL:
+			return &Val{K: VFloat, F: fa * fb}
+		case token.EQL:
+			return vbool(fa == fb)
+		case token.NEQ:
+			return vbool(fa != fb)
+		case token.LSS:
+			return vbool(fa < fb)
+		case token.LEQ:
+			return vbool(fa <= fb)
+		case token.GTR:
+			return vbool(fa > fb)
+		case token.GEQ:
+			return vbool(fa >= fb)
+		}
+		rpfFail("%s: floating-point operator outside the pure fragment", r.c.pos(pos))
 	}
 	if a.K != VInt || b.K != VInt {
 		rpfFail("%s: operands outside the pure fragment", r.c.pos(pos))
